@@ -7,6 +7,7 @@ use std::panic::{catch_unwind, AssertUnwindSafe};
 
 mod util;
 mod angles;
+mod frames;
 mod spatial;
 mod rcp;
 mod fit;
@@ -37,6 +38,7 @@ fn dispatch(rec: &Value, st: &mut State) -> Value {
     let m = rec["m"].as_str().unwrap_or("");
     match m {
         "angles" => angles::exec(rec, st),
+        "frames" => frames::exec(rec, st),
         "spatial" => spatial::exec(rec, st),
         "rcp" => rcp::exec(rec, st),
         "fit" => fit::exec(rec, st),
